@@ -165,6 +165,12 @@ func drawParams(r *eng.Run, flate bool) [][2]string {
 	if flate {
 		cand := [][2]string{{"client_max_window_bits", ""}, {"server_no_context_takeover", ""}, {"client_no_context_takeover", ""},
 			{"server_max_window_bits", "10"}, {"client_max_window_bits", "12"}, {"server_max_window_bits", "15"}}
+		if r.T.Chance(sim.LCfg, 1, 8) {
+			// An offer the negotiator refuses (a window out of range, a value
+			// where none belongs, a parameter nobody knows).
+			cand = append(cand, [2]string{"client_max_window_bits", "77"}, [2]string{"server_max_window_bits", "7"}, [2]string{"server_no_context_takeover", "1"}, [2]string{"x-unknown-parameter", ""})
+			r.Probe("deflate_offer_with_a_parameter_the_negotiator_refuses")
+		}
 		seen := map[string]bool{}
 		for i := 0; i < n && i < 4; i++ {
 			c := cand[r.T.Int(sim.LCfg, len(cand))]
@@ -384,6 +390,21 @@ func (o *hsOutcome) summary() string {
 	return fmt.Sprintf("ok(protocol=%q exts=%q)", o.Protocol, optsString(o.Exts))
 }
 
+// poisoned reports whether s contains what the simulated pool writes over a
+// buffer when it is put back.
+func poisoned(s string) bool { return strings.Contains(s, "\xa5\xa5\xa5") }
+
+// checkNoPoison: nothing a handshake hands back - the error text included,
+// applications log it - may be a view of a pooled buffer (by the time the call
+// has returned the buffer is back in the pool and overwritten).
+func checkNoPoison(r *eng.Run, who string, o *hsOutcome) {
+	if o.Err != nil {
+		if msg := o.Err.Error(); poisoned(msg) {
+			r.FailProp("C17", "result_aliases_pooled_memory", "%s: the text of the returned error reads %q: it is built from a pooled buffer that has been put back", who, msg)
+		}
+	}
+}
+
 func inSet(set []string, v string) bool {
 	for _, s := range set {
 		if s == v {
@@ -511,6 +532,7 @@ func runServer(r *eng.Run, s hsServer, p *Pipe) *hsOutcome {
 	o := runServerConn(r, s, p, func() []byte { return p.Out }, func() bool { return !p.WriteFailed() })
 	o.Pipe = p
 	o.Consumed = p.Consumed()
+	checkNoPoison(r, "upgrader", o)
 	return o
 }
 
@@ -659,6 +681,7 @@ func runClient(r *eng.Run, c hsClient, p *Pipe) *hsOutcome {
 	o := runClientConn(r, c, p, func() []byte { return p.Out }, -1)
 	o.Pipe = p
 	o.Consumed = p.Consumed()
+	checkNoPoison(r, "dialer", o)
 	return o
 }
 
@@ -802,6 +825,11 @@ type hsTrip struct {
 func pipeFor(r *eng.Run, in []byte, seg int) *Pipe {
 	p := NewPipe(r, in)
 	p.SegMode = seg
+	if seg != SegAll && len(in) > 0 && r.T.Chance(sim.LFault, 1, 5) {
+		// The peer half-closes right behind its last byte: the transport hands
+		// the last bytes over together with io.EOF.
+		p.EOFWithData = true
+	}
 	if seg == SegBoundary {
 		// Boundaries of a handshake: line ends.
 		for i := 0; i < len(in); i++ {
